@@ -310,3 +310,6 @@ func verifParamInt(name string, def int) int {
 }
 
 func verifHTTPAllowStall(on bool) {}
+
+// verifPreemptions: engine only (bounded-preemption exploration of interleavings); natively the Go scheduler decides.
+func verifPreemptions(n int) {}
